@@ -36,6 +36,8 @@ CHECKS = {
                 note="Trusted: zipfile, lxml. meta:generator excluded; manifest.rdf reconciliation judged by C04; pretty=False here (pretty is C11)."),
     "C04": dict(tech=MC, ref="5/C04", text="BFS over manifest-relevant histories (add_file by path / file-like / repeated content, del_part, image frame, merge_styles_from, clone, save, reopen) over templates and samples; every saved zip: mimetype first, stored, a valid ODF type; no duplicate entry names; an independent manifest parse lists each file exactly once, nothing absent, root entry carries the mimetype.",
                 note="Trusted: zipfile, lxml. Directory entries of the manifest (e.g. 'Pictures/') are not judged."),
+    "C11": dict(tech=ENUM, ref="5/C11", text="Every seed document (a generated document holding every adjacency of <=2 inline kinds (and <=3 over a sub-alphabet) as paragraphs and headings, also inside list items, sections and table cells; the 4 templates; every sample) x every configuration {zip pretty, folder plain/pretty, flat XML plain/pretty} compared with the plain zip save of the same state (per-paragraph ODF-collapsed text, element skeleton, attributes); in-memory parts before/after each save; 5 save sequences of length <= 3.",
+                note="Trusted: zipfile, lxml, the white-space reading of mc/models/odfws.py. Flat XML compared on paragraph texts only."),
 }
 
 NOT_YET = {}
